@@ -2,7 +2,7 @@ import OpcuaModel.Base.Loop
 import OpcuaModel.Model.SrvIds
 /-
   Driver for C32.
-    run <itemCtr> <op>*  →  <out>* | subs=<id>@<owner>,… items=<id>@<subId>@<owner>@<mode>,… pend=<id>,… ctr=<n>
+    run <itemCtr> <subCtr> <op>*  →  <out>* | subs=<id>@<owner>,… items=<id>@<subId>@<owner>@<mode>,… pend=<id>,… ctr=<n> sctr=<n>
       op  = cs:<sess> | ds:<sess>:<ids> | ap:<k> | ci:<sess>:<sub>:<n> | sm:<sess>:<mode>:<ids> | di:<sess>:<ids>
       ids = comma separated, `-` when empty
       out = id=<n> | st=<ok|sub|ses|itm>,… | ids=<n>,… | nosub | notyours | panic | hit | miss | nopending
@@ -49,15 +49,15 @@ def showState (st : St) : String :=
   let subs := (sortBy (·.1) st.subs).map fun e => s!"{e.1}@{e.2.owner}"
   let items := (sortBy (·.id) st.items).map fun it => s!"{it.id}@{it.sub.id}@{it.sub.owner}@{it.mode}"
   let pend := (sortBy id st.pending).map toString
-  s!"subs={commaList subs} items={commaList items} pend={commaList pend} ctr={st.itemCtr}"
+  s!"subs={commaList subs} items={commaList items} pend={commaList pend} ctr={st.itemCtr} sctr={st.subCtr}"
 
 def handle : List String → String
-  | "run" :: ctr :: ops =>
-    match ctr.toNat?, ops.mapM parseOp with
-    | some c, some l =>
-      let (outs, st) := run (St.init c) l
+  | "run" :: ctr :: sctr :: ops =>
+    match ctr.toNat?, sctr.toNat?, ops.mapM parseOp with
+    | some c, some sc, some l =>
+      let (outs, st) := run (St.init c sc) l
       " ".intercalate (outs.map showOut ++ ["|", showState st])
-    | _, _ => "bad-op"
+    | _, _, _ => "bad-op"
   | _ => "bad-op"
 
 def main : IO Unit := runDriver handle
